@@ -22,7 +22,9 @@ REDUCED = ["", "a", " lead", "-x", "250 x", "250-x", "251 y", "é"]
 # text that is not in a Unicode normalisation form (decomposed accents, singletons, compatibility characters, marks out
 # of canonical order): the same code points come out as went in
 UNI = ["cafe\u0301", "\u212bngstro\u0308m", "\u2126", "\uf900", "a\u0323\u0307", "a\u0307\u0323", "\ufb01", "\u2460",
-       "\u1100\u1161", "\u0344", "A\u030a"]
+       "\u1100\u1161", "\u0344", "A\u030a",
+       # lines that end in a character str.rstrip() takes although it is no blank
+       "name\xa0", "x\u3000", "y\x1f", "z\x85"]
 CODES12 = ["100", "150", "200", "211", "226", "250", "257", "331", "421", "451", "500", "550"]
 
 
@@ -95,8 +97,9 @@ def decode(world, a, raw, cuts, n_replies, encoding="utf-8"):
 
 
 def rstripped(lines):
-    # the line protocol right-strips by design (same carve-out as C08): compare modulo trailing whitespace
-    return [l.rstrip() for l in lines]
+    # the line protocol right-strips blanks by design (same carve-out as C08): compare modulo trailing blanks - a
+    # no-break space, a separator, an ideographic space at the end of a line are text like any other
+    return [l.rstrip(" \t\r\n") for l in lines]
 
 
 def seg_sets(n, mode):
@@ -138,7 +141,7 @@ def work(item):
             raw = b""
             alpha = LINES if n <= 2 else (REDUCED if n <= 4 else ["a", " lead", "250 x", "-x"])
             if len(payload) > 3:
-                alpha = UNI + ["a"] if n <= 2 else UNI[:4] + ["a"]
+                alpha = UNI + ["a"] if n <= 2 else UNI[:4] + UNI[-2:] + ["a"]
             for lines in itertools.product(alpha, repeat=n):
                 if mode and n < 2:
                     continue
